@@ -16,7 +16,7 @@ P = {
  'C05': ('Theorems about the text form (coq/Props/C05.v, Spec/TextOf.v) + differential run with the extracted specification text_of applied to the implementation output as oracle.', 'text-form specification + structural induction + correspondence'),
  'C06': ('Theorems about the parser model (coq/Props/C06.v: marker-free identity, termination, every template of plain text and simple references of any length parses to its pieces, unclosed / empty references are errors, an escaped marker is literal text) + exhaustive comparison of parse trees over the grammar alphabet through the Token hook.', 'parser combinator model + induction + exhaustive correspondence'),
  'C07': ('Closedness and fixed-point theorems over the fuelled interpreter (coq/Props/C07.v) + render-twice differential run with a closedness oracle on the implementation output.', 'invariant by induction on fuel + correspondence'),
- 'C08': ('Termination theorem (coq/Props/C08.v, Proofs/Termination.v: every well-formed parameter mapping, cyclic graphs included, renders to one value or error from some fuel on, never a panic), cycles of whole-value references of any length are reported as loop/depth errors, depth bound and loop error characterisation + differential run on cyclic/acyclic reference graphs, sharing and chains around the limit 64.', 'termination by a lexicographic measure (reference budget, value structure) + state invariants + correspondence'),
+ 'C08': ('Termination theorem (coq/Props/C08.v, Proofs/Termination.v: every well-formed parameter mapping, cyclic graphs included, renders to one value or error from some fuel on, never a panic), cycles of whole-value references of any length are reported as loop/depth errors, no placement of a cycle (embedded, list, mapping, layer, member path) yields a value, depth bound and loop error characterisation + differential run on cyclic/acyclic reference graphs, sharing and chains around the limit 64.', 'termination by a lexicographic measure (reference budget, value structure) + state invariants + correspondence'),
  'C09': ('Theorems about insert_impl / Mapping::merge and constant keys, and end to end at any nesting depth through the C02 refinement (coq/Props/C09.v) + differential run with Spec/DeepMerge.v as oracle.', 'local laws of insert_impl + deep-merge specification + correspondence'),
  'C10': ('Theorems about override keys in insert_impl / Mapping::merge, and end to end at any nesting depth through the C02 refinement (coq/Props/C10.v) + differential run with Spec/DeepMerge.v as oracle.', 'local laws of insert_impl + deep-merge specification + correspondence'),
  'C11': ('No-panic and always-returns theorems for the modelled pipeline from the YAML AST on (coq/Props/C11.v: render_node yields one value or error from some fuels on for every include graph and reference graph; every todo!/unreachable!/unwrap/panic! site on a modelled path is an outcome of the model) + crash-freedom streams (AST fuzz, byte-level files, deep inputs, file-system faults) with panic capture and process-death attribution. PARTIAL: byte-level YAML parsing, file-system faults and stack exhaustion live in libraries/runtime and are covered by the correspondence run only.', 'panic sites as outcomes + unreachability lemmas + crash-freedom runs'),
